@@ -173,7 +173,7 @@ def run(rep, tier, seed, tr_errors):
         rep.oblige("translator:" + tr, tr not in tr_errors, tr_errors.get(tr, "regenerated")[-300:])
     thm_ok, names, out = lib.check_props_file(rep, PROPS_FILE, expect=EXPECT)
     kf = lib.load_known_findings()
-    reps = 2 if tier == "quick" else 14
+    reps = 4 if tier == "quick" else 14
     bad, judged, skipped, stats = [], 0, 0, {}
     for f_ in kf.get("findings", []):          # recorded reproducers run first
         if f_.get("property") == PROP and "reproducer" in f_:
